@@ -15,8 +15,10 @@ from harness import coq
 from harness.common import REPO, VERIF
 
 KNOWN_FILE = VERIF / "known_findings.json"
-EVIDENCE = VERIF / "evidence"
-REPLAYS = VERIF / "replays"
+import os as _os
+_OUT = Path(_os.environ.get("VERIF_OUT_DIR") or VERIF)
+EVIDENCE = _OUT / "evidence"
+REPLAYS = _OUT / "replays"
 FP_EXPECTED = VERIF / "coq" / "Gen.expected" / "fingerprints.json"
 
 TRUSTED_BASE_COMMON = [
